@@ -77,11 +77,18 @@ class Frag:
     def __init__(self):
         self.notes = []
         self.detail = []
+        self.t = 0              # iteration the replay is in (set by the loop)
+        self.first_t = None     # first iteration with a near-tie
+
+    def note(self, what):
+        self.notes.append(what)
+        if self.first_t is None:
+            self.first_t = self.t
 
     def lt(self, a, b, what):
         """a < b, noting a near-tie"""
         if abs(float(a) - float(b)) <= FRAG * max(1.0, abs(float(a)), abs(float(b))):
-            self.notes.append(what)
+            self.note(what)
             self.detail.append((what, float(a), float(b)))
         return a < b
 
@@ -146,7 +153,7 @@ class Replay:
             others = sorted(vals)
             if len(others) > 1 and abs(float(others[1]) - float(others[0])) <= FRAG * max(1.0, abs(float(bv))):
                 # two stored classifiers (nearly or exactly) tie for the minimum: float rounding decides which index idxmin returns
-                self.fr.notes.append("idxmin tie" if others[1] == others[0] else "idxmin near-tie")
+                self.fr.note("idxmin tie" if others[1] == others[0] else "idxmin near-tie")
                 self.fr.detail.append(("idxmin", float(others[0]), float(others[1]) - float(others[0]), float(others[1]-others[0])))
             if self.fr.lt(hv, bv - PREC, "best_h improvement"):
                 self.hs.append(h)
@@ -198,6 +205,7 @@ class Replay:
         self.shrinks = self.checks = 0
         self.done = False
         for t in range(self.max_iter):
+            self.fr.t = t
             E = []
             for th in theta:
                 if th not in self.etab:
@@ -247,7 +255,8 @@ class Replay:
         kept = [i for i, g in enumerate(self.gaps) if g <= m + PREC]
         for g in self.gaps:
             if g != m and abs(float(g) - float(m + PREC)) <= FRAG * 1e-3:
-                self.fr.notes.append("best-iterate keep near _PRECISION")
+                self.fr.t = self.max_iter
+                self.fr.note("best-iterate keep near _PRECISION")
         self.best_iter = kept[-1]
         self.best_gap = self.gaps[self.best_iter]
         w = self.qs[self.best_iter]
@@ -327,6 +336,23 @@ def replay_as_model(rp):
             "etas": rp.etas, "gaps_eg": rp.gaps_eg, "gaps": rp.gaps, "from_lp": rp.from_lp,
             "stored_errs": [e for e, _ in rp.hs], "shrinks": rp.shrinks, "checks": rp.checks, "cache_hits": rp.cache_hits,
             "lam_lp_t": [t for t, _ in rp.lam_lp], "lam_lp": [l for _, l in rp.lam_lp]}
+
+
+def compare_prefix(case, o, rp):
+    """for a run with a near-tie at iteration t_f: the multiplier columns 0..t_f depend only on decisions of earlier
+    iterations, so they are still compared"""
+    tf = rp.fr.first_t
+    if tf is None:
+        return []
+    tol = 1e-9 * max(1.0, float(rp.B))
+    cols = o["lam_cols"]
+    for t in range(min(tf + 1, len(cols), len(rp.lam_cols))):
+        d = max(abs(a - float(b)) for a, b in zip(cols[t], rp.lam_cols[t]))
+        if d > tol:
+            return [("C08.loop lambda_vecs_EG_ (lambda_t = B e^theta/(1+sum e^theta), theta += eta (gamma - bound), eta shrink)",
+                     f"column {t} (before the first near-tie, iteration {tf}): implementation {cols[t]} vs documented "
+                     f"{[float(v) for v in rp.lam_cols[t]]} (max diff {d})")]
+    return []
 
 
 def compare_impl(case, o, rp):
